@@ -34,9 +34,10 @@ func pidExists(pid int) bool {
 	if pid == 0 {
 		return false
 	} else if pid < 0 {
-		// A negative PID should still be acceptable, means it's a PGID
-		// so we make it positive to make it work with os.FindProcess
-		pid *= -1
+		// A negative PID is a PGID: the group is there as long as any member is, whether or
+		// not its leader (which os.FindProcess on the positive value would probe) still runs
+		err := syscall.Kill(pid, syscall.Signal(0))
+		return err == nil || err == syscall.EPERM
 	}
 	proc, err := os.FindProcess(pid)
 	if err != nil {
